@@ -20,13 +20,14 @@ RULE = ('random Hermitian models (on-site, nearest and longer-range couplings in
 ASSUMPTIONS = ['C10/C07 (dense H of the MPO and dense state of the MPS)', 'degenerate ground spaces handled by projecting on the exact ground space']
 ANCHORS = {'tenpy/algorithms/dmrg.py': ['*'], 'tenpy/algorithms/mps_common.py': ['*'], 'tenpy/algorithms/vumps.py': ['*']}
 REQUIRED_COUNTERS = {'runs': 60, 'engine.TwoSiteDMRGEngine': 20, 'engine.SingleSiteDMRGEngine': 10, 'convergence.checked': 10,
-                     'updates.energy_compared': 200, 'effH.checked': 10, 'vumps.runs': 3, 'ortho.runs': 3}
+                     'updates.energy_compared': 200, 'effH.checked': 10, 'vumps.runs': 3, 'ortho.runs': 3, 'idmrg.runs': 15, 'idmrg.ledger_truncating': 10}
 
 
 def plan(tier, seed, jobs):
     q = tier == 'quick'
     return (shard('compiled', 140 if q else 1500, 14, part='dmrg', timeout=3000, time_budget=150 if q else 1500) +
-            shard('compiled', 8 if q else 100, 2, part='vumps', timeout=3000, time_budget=150 if q else 1500))
+            shard('compiled', 8 if q else 100, 2, part='vumps', timeout=3000, time_budget=150 if q else 1500) +
+            shard('compiled', 40 if q else 600, 4, part='idmrg', timeout=3000, time_budget=150 if q else 1500))
 
 
 def worker_init(ctx):
@@ -378,6 +379,143 @@ def case_dmrg(ctx, i):
                 raise
     ctx.sig((engine, str(mixer), diag, desc['sites'], L, tuple(c[0] + str(c[2:4]) for c in desc['calls']), untruncated), nontrivial=L >= 4)
     if i % 30 == 0:
+        ctx.sample(case)
+
+
+def case_idmrg(ctx, i):
+    """Infinite DMRG: ledger of the reported truncation statistics, canonical form of the returned state, reported energy density
+    vs H_MPO.expectation_value and vs the exact energy density (transverse-field Ising), short and long runs."""
+    from tenpy.models.tf_ising import TFIChain
+    from tenpy.models.xxz_chain import XXZChain
+    from tenpy.networks.mps import MPS
+    from tenpy.algorithms import dmrg
+    rng = ctx.rng
+    engine = str(rng.choice(['TwoSiteDMRGEngine', 'TwoSiteDMRGEngine', 'SingleSiteDMRGEngine']))
+    which = 'TFI' if rng.random() < 0.7 else 'XXZ'
+    if which == 'TFI':
+        g = float(rng.choice([0.5, 0.7, 1.5, 2.0, 3.0]))
+        Lc = int(rng.choice([2, 2, 3, 4]))
+        cons = str(rng.choice(['None', 'parity']))
+        M = TFIChain({'L': Lc, 'J': 1.0, 'g': g, 'bc_MPS': 'infinite', 'conserve': None if cons == 'None' else cons})
+        k = np.linspace(0, np.pi, 20001)
+        e0 = -np.trapezoid(np.sqrt(1 + g * g + 2 * g * np.cos(k)), k) / np.pi
+        p0 = ['up'] * Lc
+        model = {'model': 'TFIChain', 'g': g, 'L': Lc, 'conserve': cons}
+    else:
+        Jz = float(rng.choice([0.5, 2.0, 4.0]))
+        Lc = int(rng.choice([2, 4]))
+        M = XXZChain({'L': Lc, 'Jxx': 1.0, 'Jz': Jz, 'hz': 0.0, 'bc_MPS': 'infinite'})
+        e0 = None
+        p0 = ['up', 'down'] * (Lc // 2)
+        model = {'model': 'XXZChain', 'Jz': Jz, 'L': Lc}
+    psi = MPS.from_product_state(M.lat.mps_sites(), p0, bc='infinite')
+    chi = int(rng.choice([2, 3, 4, 6, 10, 30]))
+    N_check = int(rng.choice([1, 2, 2, 3, 4]))
+    short = bool(rng.random() < 0.5)
+    sweeps = int(rng.integers(2, 8)) if short else int(rng.choice([30, 60]))
+    mixer = [None, True, 'DensityMatrixMixer', 'SubspaceExpansion'][int(rng.integers(4))]
+    if engine == 'SingleSiteDMRGEngine' and mixer is None:
+        mixer = True  # (single-site updates cannot grow the bond dimension of a product state)
+    opts = {'trunc_params': {'chi_max': chi, 'svd_min': 1e-12}, 'max_sweeps': sweeps, 'min_sweeps': min(sweeps, 2), 'N_sweeps_check': N_check,
+            'mixer': mixer, 'max_E_err': 1e-11, 'max_S_err': 1e-7,
+            'max_trunc_err': None}  # (the engine's own consistency check on large truncation errors raises by design)
+    if mixer is not None:
+        # switched off well before the end (else: the recorded finding about runs that end with the mixer on), sometimes not
+        late = bool(rng.random() < 0.15)
+        opts['mixer_params'] = {'amplitude': float(rng.choice([1e-3, 1e-5])), 'disable_after': sweeps + 5 if late else max(1, sweeps // 2 - 1), 'decay': 2.0}
+    if rng.random() < 0.3:
+        opts['update_env'] = int(rng.integers(0, 4))
+    case = dict(model, engine=engine, options=copy.deepcopy(opts))
+    ctx.count('idmrg.runs')
+    try:
+        eng = getattr(dmrg, engine)(psi, M, copy.deepcopy(opts))
+    except Exception as e:
+        tb = traceback.format_exc()
+        if '/tenpy/' not in tb:
+            raise
+        ctx.violation('iDMRG:%s:init-raises-%s' % (engine, type(e).__name__), tb[-700:], case)
+        return
+    # --- ledger of sweeps: (optimize?, returned maximal truncation error, truncation energies measured in that sweep)
+    ledger = []
+    orig_sweep = eng.sweep
+
+    def sweep(optimize=True, *a, **kw):
+        r = orig_sweep(optimize, *a, **kw)
+        ledger.append((bool(optimize), float(r) if r is not None else None, [x for x in getattr(eng, 'E_trunc_list', [])],
+                       [float(x) for x in getattr(eng, 'trunc_err_list', [])]))
+        return r
+
+    eng.sweep = sweep
+    try:
+        E, psi = eng.run()
+    except Exception as e:
+        tb = traceback.format_exc()
+        if '/tenpy/' not in tb:
+            raise
+        ctx.violation('iDMRG:%s:raises-%s' % (engine, type(e).__name__), tb[-700:], case)
+        return
+    mixer_on_at_end = eng.mixer is not None
+    stats = eng.sweep_stats
+    opt = [l for l in ledger if l[0]]
+    n_it = len(stats['sweep'])
+    ctx.count('idmrg.iterations', n_it)
+    if len(opt) != n_it * N_check:
+        ctx.violation('iDMRG:sweep-count', '%d optimising sweeps for %d iterations with N_sweeps_check=%d' % (len(opt), n_it, N_check), case)
+        return
+    for kk in range(n_it):
+        last = opt[(kk + 1) * N_check - 1]
+        rep = float(stats['max_trunc_err'][kk])
+        exp = max(last[3]) if last[3] else 0.0
+        ctx.count('idmrg.ledger_checked')
+        if exp > 1e-14:
+            ctx.count('idmrg.ledger_truncating')
+        if not (abs(rep - exp) <= 1e-12 * max(1.0, 0) + 1e-9 * exp):
+            ctx.violation('iDMRG:reported-max_trunc_err-is-not-that-of-the-optimising-sweep', 'iteration %d: sweep_stats %r, the last optimising '
+                          'sweep truncated by at most %r' % (kk, rep, exp), case)
+            return
+        et = [x for x in last[2] if x is not None]
+        if et:
+            rep_e, exp_e = float(stats['max_E_trunc'][kk]), float(np.max(et))
+            if not (abs(rep_e - exp_e) <= 1e-12 + 1e-9 * abs(exp_e)):
+                ctx.violation('iDMRG:reported-max_E_trunc-is-not-that-of-the-optimising-sweep', 'iteration %d: sweep_stats %r, measured %r' %
+                              (kk, rep_e, exp_e), case)
+                return
+    # --- returned state
+    nt = float(np.max(np.abs(psi.norm_test())))
+    late = ':mixer-still-active-after-last-sweep' if mixer_on_at_end else ''
+    try:
+        smin = min(float(np.min(psi.get_SL(b))) for b in range(psi.L))
+    except Exception:
+        smin = 0.0
+    if not (nt <= 1e-8):
+        ctx.violation('DMRG%s:returned-state-not-normalised-or-not-canonical' % late, 'infinite %s: norm_test %r' % (engine, nt), case)
+        if not (nt <= 1e-3):
+            return
+    e_mpo = float(np.real(M.H_MPO.expectation_value(psi)))
+    E = float(np.real(E))
+    terr = float(np.max(stats['max_trunc_err'])) if n_it else 0.0
+    conv = n_it >= 2 and abs(stats['Delta_E'][-1]) < 1e-9 and not mixer_on_at_end
+    ctx.obs.setdefault('idmrg_gap', []).append([abs(E - e_mpo), terr, bool(conv), bool(short)])
+    if e0 is not None and e_mpo < e0 - 1e-7:
+        ctx.violation('iDMRG:energy-density-below-exact', 'e = %r exact %r' % (e_mpo, e0), case)
+    if conv and not mixer_on_at_end:
+        ctx.count('idmrg.converged')
+        # converged: the reported energy density is the one of the returned state up to the (reported) truncation
+        if not (abs(E - e_mpo) <= 1e-7 + 20 * terr):
+            ue = opts.get('update_env', N_check // 2)
+            if engine == 'SingleSiteDMRGEngine' and ue == 1:
+                # mechanism: the energy density is the slope of E_total over age in a window of 2L+1 updates; entries written by
+                # environment sweeps hold the energy of the network *after* the update next to the age *before* it, entries of
+                # optimising updates hold both before the update; with exactly one environment sweep the window mixes both kinds
+                ctx.violation('iDMRG:SingleSiteDMRGEngine:update_env=1:reported-energy-is-not-the-energy-density-of-the-returned-state',
+                              'E %r, <H> %r (ratio %.4f), max_trunc_err %r' % (E, e_mpo, E / e_mpo, terr), case)
+            else:
+                ctx.violation('iDMRG:reported-energy-differs-from-expectation-value-beyond-reported-truncation', 'E %r, <H> %r, max_trunc_err %r' %
+                              (E, e_mpo, terr), case)
+        if e0 is not None and not short and chi >= 10 and not (e_mpo - e0 <= 1e-5):
+            ctx.violation('iDMRG:does-not-converge', 'e - e_exact = %g (chi %d)' % (e_mpo - e0, chi), case)
+    ctx.sig(('idmrg', engine, repr(mixer), N_check, chi, short, which), nontrivial=True)
+    if i % 10 == 0:
         ctx.sample(case)
 
 
